@@ -23,6 +23,11 @@ def rename_case(rng):
             continue
         u, m = rng.choice(cands)
         old = m["name"]
+        if rng.random() < 0.3:
+            # several sites on one line: a call of the renamed method with calls of it among its arguments
+            hosts = [mm for mm in u["members"] if mm.get("body") is not None]
+            if hosts:
+                rng.choice(hosts)["body"].insert(0, ("expr", ("call", None, old, [("call", None, old, []), ("lit", "1"), ("call", ("this",), old, [])])))
         files, built = {}, []
         if rng.random() < 0.35:
             # a second class with the very same layout (same lines and columns) in another file
